@@ -685,6 +685,40 @@ pub fn c17_zoo(cx: &SweepCtx, quick: bool, threads: usize) {
     }
     texts_.sort();
     texts_.dedup();
+    // formatting alphabet: characters Debug escapes or pads specially; every text of <= 3 of
+    // them, alone and behind a 14-byte ASCII run, through every route (Display/Debug/padding/
+    // Hash/conversions only - not all pairs)
+    {
+        let fmt_chars = ['a', '"', '\\', '\'', '\n', '\t', '\0', '\u{7f}', '\u{300}', '\u{2028}', 'é', '😀'];
+        let mut cur = vec![String::new()];
+        let mut all = Vec::new();
+        for _ in 0..(if quick { 2 } else { 3 }) {
+            let mut nx = Vec::new();
+            for t in &cur {
+                for c in fmt_chars {
+                    nx.push(format!("{t}{c}"));
+                }
+            }
+            all.extend(nx.iter().cloned());
+            cur = nx;
+        }
+        let n = all.len();
+        par_for_guarded(cx, "C17", n, threads, |i| {
+            for prefix in ["", ascii(INLINE - 2)] {
+                let t = format!("{prefix}{}", all[i]);
+                for route in 0..ROUTES {
+                    shim::with(|s| s.reset());
+                    if let Some(b) = zoo_build(&t, route) {
+                        cx.count();
+                        let mut out = Vec::new();
+                        oracle::c17_single(&b.s, &t, &format!("text {t:?} via route {route}"), &mut out);
+                        cx.report(&out, "zoo-format", &format!("route{route}"), &format!("text {t:?} route {route}"));
+                    }
+                }
+            }
+        });
+        cx.stats.class(format!("format-alphabet/{n}-texts"));
+    }
     // build the zoo once per worker chunk: items = (text index, route)
     let items: Vec<(usize, usize)> = (0..texts_.len()).flat_map(|t| (0..ROUTES).map(move |r| (t, r))).collect();
     let n = items.len();
